@@ -79,4 +79,23 @@ def det3 (m : M44 α) : α :=
 /-- last column `(0,0,0,1)ᵀ`: an affine matrix -/
 def Affine (m : M44 α) : Prop := m.x03 = 0 ∧ m.x13 = 0 ∧ m.x23 = 0 ∧ m.x33 = 1
 
+/-! projective matrices: the homogeneous `w`, the numerators of `Vec3 * Matrix44`, the full 4×4 determinant -/
+/-- homogeneous `w` of `Vec3 * Matrix44` (`mulM44 p m = numM44 p m / wOf p m`) -/
+def wOf (p : V3 α) (m : M44 α) : α := p.x * m.x03 + p.y * m.x13 + p.z * m.x23 + m.x33
+/-- numerators of `Vec3 * Matrix44` before the homogeneous divide -/
+def numM44 (p : V3 α) (m : M44 α) : V3 α :=
+  ⟨p.x * m.x00 + p.y * m.x10 + p.z * m.x20 + m.x30, p.x * m.x01 + p.y * m.x11 + p.z * m.x21 + m.x31, p.x * m.x02 + p.y * m.x12 + p.z * m.x22 + m.x32⟩
+/-- determinant of the full 4×4 matrix (Laplace expansion along the first row) -/
+def det4 (m : M44 α) : α :=
+  m.x00 * (m.x11 * (m.x22 * m.x33 - m.x23 * m.x32) - m.x12 * (m.x21 * m.x33 - m.x23 * m.x31) + m.x13 * (m.x21 * m.x32 - m.x22 * m.x31))
+  - m.x01 * (m.x10 * (m.x22 * m.x33 - m.x23 * m.x32) - m.x12 * (m.x20 * m.x33 - m.x23 * m.x30) + m.x13 * (m.x20 * m.x32 - m.x22 * m.x30))
+  + m.x02 * (m.x10 * (m.x21 * m.x33 - m.x23 * m.x31) - m.x11 * (m.x20 * m.x33 - m.x23 * m.x30) + m.x13 * (m.x20 * m.x31 - m.x21 * m.x30))
+  - m.x03 * (m.x10 * (m.x21 * m.x32 - m.x22 * m.x31) - m.x11 * (m.x20 * m.x32 - m.x22 * m.x30) + m.x12 * (m.x20 * m.x31 - m.x21 * m.x30))
+/-- the homogeneous `w` of the three points from which `plane * M` rebuilds the plane (`d·n`, `d·n + D×n`, `d·n + D`, with
+`D = eᵢ × n` for whichever coordinate axis `eᵢ` the code picks) does not vanish -/
+def MulM44Defined (pl : Plane3 α) (m : M44 α) : Prop :=
+  wOf (smul pl.distance pl.normal) m ≠ 0 ∧
+  ∀ D, (D = cross ⟨1, 0, 0⟩ pl.normal ∨ D = cross ⟨0, 1, 0⟩ pl.normal ∨ D = cross ⟨0, 0, 1⟩ pl.normal) →
+    wOf (add (smul pl.distance pl.normal) (cross D pl.normal)) m ≠ 0 ∧ wOf (add (smul pl.distance pl.normal) D) m ≠ 0
+
 end ImathVerif.Geo
